@@ -4,6 +4,8 @@ import (
 	"fmt"
 	"os"
 	"strings"
+
+	"golang.org/x/tools/go/ssa"
 )
 
 // debugGuard: circlcheck -property DEBUG with env DBG="pkg|recv|name|assume1,assume2|failkind|bigarg"
@@ -15,6 +17,21 @@ func init() {
 		if f == nil {
 			fmt.Println("function not found")
 			return
+		}
+		if os.Getenv("DBGCALLS") != "" {
+			for _, b := range f.Blocks {
+				for _, in := range b.Instrs {
+					if ci, ok := in.(ssa.CallInstruction); ok {
+						fmt.Printf("  call %s: %q", p.pos(ci.Pos()), p.staticCalleeName(ci.Common()))
+						if ci.Common().StaticCallee() == nil {
+							for _, cal := range p.dynamicCallees(f, ci) {
+								fmt.Printf(" -> %q", short(cal.String()))
+							}
+						}
+						fmt.Println()
+					}
+				}
+			}
 		}
 		var as []Assume
 		if len(parts) > 3 && parts[3] != "" {
